@@ -208,8 +208,9 @@ func compareVersionPrerelease(a, b string) int {
 		return -1
 	}
 
-	x := a
-	y := b
+	// NOTE semver.Version.Prerelease() does not have the leading '-'.
+	x := "-" + a
+	y := "-" + b
 
 	for x != "" && y != "" {
 		x, y = x[1:], y[1:] // skip - or .
@@ -231,14 +232,12 @@ func compareVersionPrerelease(a, b string) int {
 			}
 
 			return 1
-		case ix:
+		case ix && len(dx) != len(dy):
 			if len(dx) < len(dy) {
 				return -1
 			}
 
-			if len(dx) > len(dy) {
-				return 1
-			}
+			return 1
 		case dx < dy:
 			return -1
 		default:
